@@ -240,10 +240,12 @@ def record_trace(rng):
             else:
                 init = cur                                              # chain continued across calls
             v0 = bitrows(init)
+            # "overwrite" left out is the documented default: not in place
+            kw = {} if (not ow and rng.random() < 0.5) else {"overwrite": ow}
             if via_state:
-                out = s.sample(k, initial_state=init, overwrite=ow, num_samples=5)
+                out = s.sample(k, initial_state=init, num_samples=5, **kw)
             else:
-                out = rbm.gibbs_steps(k, init, overwrite=ow)
+                out = rbm.gibbs_steps(k, init, **kw)
             ev.append(dict(e="Begin", v0=v0, k=kval, ow=ow))
             ev += [dict(e="Draw", probs=d["probs"], bits=d["bits"]) for d in rec.ev]
             shares = out is init or (out.numel() > 0 and out.untyped_storage().data_ptr() == init.untyped_storage().data_ptr())
